@@ -18,7 +18,7 @@ CLAIM = dict(cat="proof", design="§3 C11",
         "within 1 ulp / 1e-9 / 1e-5 of every wave speed) and with the private helpers guess_P, f, fprime, solve_brent on every run; an independent 40-digit reference solver checks the real outputs. "
         "FINDING exhibited by the oracle: sampled exactly at (or one ulp inside) a vacuum front the solver returned NaN density/pressure (fan base rounds negative, std::pow(neg, non-integer)); "
         "fix = std::max(0., base) at the six fan sites (hooks/c11_exact_vacuum_front_nan.patch); the model carries both variants (clamp) and all theorems hold for both. Gas next to vacuum (one side empty, moving gas) is checked against the textbook fan solution on random states.",
-   note="Trusted: Coq kernel + standard real-number axioms (as reported); extraction with ExtrOCamlFloats and glibc pow on both sides for the correspondence. "
+   note="Every quick run also solves 63 problems directly after the same problem seen from another frame (bit-identical densities, pressures and velocity difference): results must not depend on the call history. Trusted: Coq kernel + standard real-number axioms (as reported); extraction with ExtrOCamlFloats and glibc pow on both sides for the correspondence. "
         "PARTIAL: accuracy of P* is proved only for the Brent path (C11_star_state_accuracy_partial); when the Newton loop stops on its step test the residual bound needs concavity of f (not proved) - "
         "covered by the reference-solver oracle only (observed max deviation 3e-10 relative). Continuity is stated as coincidence of the one-sided expressions at fan head/tail, not as an epsilon-delta statement. "
         "Real instance uses Rpower (Rpower 0 y = 1): statements at a vanishing base are about the base; the loop-logic theorems hold for any pow, and the pressure function with the C value pow(0,y)=0 is characterised at P=0 (C11_pressure_function_at_zero). "
